@@ -1309,6 +1309,24 @@ def run_genlimit(spec):
         if made:
             made[0].add_edge(0, 3); made[0].nodes[0]['x'] = 1
             if proto.has_edge(0, 3) or 'x' in proto.nodes[0] or any(h.has_edge(0, 3) for h in made[1:]): viol.append(('fresh', "changing one copy changed the prototype or another copy"))
+    if spec['limit'] in (1, 2) and not viol:
+        # an experiment over a generator limited to L networks: L runs go ahead, each on a network of its own; the next one has no network
+        # to run on and must not quietly go ahead on an earlier run's
+        from epydemic import StochasticDynamics, SynchronousDynamics
+        L_ = spec['limit']
+        Dyn_ = StochasticDynamics if spec['asks'] % 2 == 0 else SynchronousDynamics
+        q_ = SIR(); q_.setMaximumTime(2.0)
+        e_ = Dyn_(q_, FixedNetwork(nx.path_graph(4), limit=L_) if spec['fixed'] else G(limit=L_))
+        seen_ = []
+        for i_ in range(L_ + 1):
+            try:
+                e_.set({SIR.P_INFECTED: 0.5, SIR.P_INFECT: 0.5, SIR.P_REMOVE: 0.5}).run(fatal=True); ok_ = True
+            except Exception:
+                ok_ = False
+            if i_ < L_ and not ok_: viol.append(('fresh', f"run {i_ + 1} of an experiment over a generator limited to {L_} networks failed")); break
+            if i_ < L_: seen_.append(id(e_.network()) if e_.network() is not None else None)
+            if i_ == L_ and ok_:
+                viol.append(('fresh', f"run {L_ + 1} of an experiment over a generator limited to {L_} networks went ahead although there was no network left for it")); break
     rem = gen._remaining
     return [f"GEN {'-' if spec['limit'] is None else spec['limit']} {spec['asks']}"], [f"made={len(made)} remaining={rem}"], \
         dict(events=spec['asks'], oracle=viol[:1], exc=None, handlers=[], tags=['genlimit'])
